@@ -179,11 +179,14 @@ package trie
 //@   requires b != nil
 //@   ensures out: n >= b.len ==> result == 0
 //@   ensures bit: n < b.len ==> zext(result, 256) == (val(b) >> (b.len - n - 1)) & bv(1, 256)
+// keyBit is hidden: callers (proof verification) use it by name only.
+//@ pure hidden func keyBit(k bv256, klen uint8, pos uint8) bool = (k >> (klen - pos - 1)) & bv(1, 256) == bv(1, 256)
 //@ func (*BitArray).IsBitSet
 //@   props C01
 //@   arith bv
+//@   reveal keyBit
 //@   requires b != nil
-//@   ensures result <==> (n < b.len && (val(b) >> (b.len - n - 1)) & bv(1, 256) == bv(1, 256))
+//@   ensures result <==> (n < b.len && keyBit(val(b), b.len, n))
 //@ func (*BitArray).MSB
 //@   props C01
 //@   arith bv
@@ -542,13 +545,52 @@ package trie
 // An edge with path p (n bits) matches a klen-bit key k at position pos (position 0 is the most
 // significant bit) iff the key without its first pos bits and the path agree on their common
 // length. For an edge that fits (n <= klen - pos) this says: the n key bits at pos equal p.
-//@ pure func edgeMatches(k bv256, klen uint8, pos uint8, p bv256, n uint8) bool = ((k & ones(klen - pos)) >> ((klen - pos) - min(klen - pos, n))) == (p >> (n - min(klen - pos, n)))
+//@ pure hidden func edgeMatches(k bv256, klen uint8, pos uint8, p bv256, n uint8) bool = ((k & ones(klen - pos)) >> ((klen - pos) - min(klen - pos, n))) == (p >> (n - min(klen - pos, n)))
 //@ func verifyEdgePath
 //@   props C10
 //@   arith bv
+//@   reveal edgeMatches
 //@   requires key != nil && edgePath != nil && wf(key) && wf(edgePath)
 //@   ensures matches: curPos <= key.len ==> (result <==> edgeMatches(val(key), key.len, curPos, val(edgePath), edgePath.len))
 // Two 256-bit barrel shifters whose operands are equal only through the callees' postconditions:
 // no installed solver decides this for all lengths in reasonable time (20-50 s even with every
 // heap read abstracted); within the bound it takes a second.
 //@   bounded matches: key.len <= 16 && edgePath.len <= 16
+
+// ---- VerifyProof: every step down the path is authenticated by a hash check --------------------
+// auth(root, k, h, pos) reads: "h is the hash of the node at depth pos on the path of key k in the
+// trie committed to by root". The three `where` clauses DEFINE it (they are assumptions, the
+// meaning of "authentic" under collision resistance of the hash function): the root is authentic
+// at depth 0; a binary node whose hash is authentic passes authenticity on to the child selected
+// by the key bit at its depth; an edge node whose hash is authentic has a path that fits the
+// remaining key, passes authenticity on to its child when the path matches the key there, and
+// proves the key absent when it does not. What is PROVED is that VerifyProof only ever returns
+// the hash reached after consuming all 251 key bits along authenticated steps (a value proven
+// present), or zero after an authenticated mismatching edge (a key proven absent): it cannot
+// accept a node whose hash it has not checked, descend into the wrong child, skip or misplace an
+// edge, or stop early.
+//@ ghost func auth(root felt.Felt, k _, h felt.Felt, pos uint8) bool
+//@ ghost func absent(root felt.Felt, k _) bool
+//@ pure func keyOf(f felt.Felt) bv256 = feltVal(f) & ones(251)
+// Proof sets hold well-formed nodes (assumption on how they are built: both node kinds carry
+// non-nil hashes and a well-formed path).
+//@ extern func github.com/NethermindEth/juno/utils.(*OrderedSet).Get
+//@   ensures result1 ==> (istype(result0, *Binary) || istype(result0, *Edge))
+//@   ensures result1 && istype(result0, *Binary) ==> cast(result0, *Binary) != nil && cast(result0, *Binary).LeftHash != nil && cast(result0, *Binary).RightHash != nil
+//@   ensures result1 && istype(result0, *Edge) ==> cast(result0, *Edge) != nil && cast(result0, *Edge).Child != nil && cast(result0, *Edge).Path != nil && wf(cast(result0, *Edge).Path)
+//@ extern func github.com/NethermindEth/juno/core/felt.(*Felt).Equal
+//@   requires z != nil && x != nil
+//@   ensures result <==> (*z == *x)
+//@ extern func github.com/NethermindEth/juno/core/felt.(*Felt).String
+//@ func VerifyProof
+//@   props C10
+//@   arith bv
+//@   nosafe
+//@   requires root != nil && keyFelt != nil && proof != nil
+//@   purecallback hash
+//@   where base: auth(*root, keyOf(*keyFelt), *root, 0)
+//@   where binary: forall h felt.Felt, l felt.Felt, r felt.Felt, pos uint8 :: auth(*root, keyOf(*keyFelt), h, pos) && h == cbapp(hash, l, r) ==> pos < 251 && (keyBit(keyOf(*keyFelt), 251, pos) ==> auth(*root, keyOf(*keyFelt), r, pos + 1)) && (!keyBit(keyOf(*keyFelt), 251, pos) ==> auth(*root, keyOf(*keyFelt), l, pos + 1))
+//@   where edge: forall h felt.Felt, c felt.Felt, p bv256, n uint8, pos uint8 :: auth(*root, keyOf(*keyFelt), h, pos) && h == feltAdd(cbapp(hash, c, feltOfBits(p)), feltOfBits(zext(n, 256))) ==> pos <= 251 && n <= 251 - pos && (edgeMatches(keyOf(*keyFelt), 251, pos, p, n) ==> auth(*root, keyOf(*keyFelt), c, pos + n)) && (!edgeMatches(keyOf(*keyFelt), 251, pos, p, n) ==> absent(*root, keyOf(*keyFelt)))
+//@   loop 1: invariant authenticated: expectedHash != nil && curPos < 251 && auth(*root, keyOf(*keyFelt), *expectedHash, curPos)
+//@   loop 1: invariant key: keyBits.len == 251 && val(&keyBits) == keyOf(*keyFelt) && wf(&keyBits)
+//@   ensures sound: result1 == nil ==> auth(*root, keyOf(*keyFelt), result0, 251) || (result0 == felt.Zero && absent(*root, keyOf(*keyFelt)))
